@@ -144,6 +144,15 @@ CLAIMED.update({
    technique="translation to a deep embedding + Coq evaluation over a finite domain (content view) + quad-level set proofs + callee correspondence + container/expansion differential on /repo",
    ref="4 (C14)"),
 })
+CLAIMED.update({
+ "C20": dict(
+   text="Coq proofs about a model, over character strings, of the loader's decisions (load_from_source): which str/bytes arguments are RDF text (anything starting with # @ < { [ or a line break; any text with a line break that is not a path or file:/http(s): reference; any text of 140+ characters; the empty text), "
+        "the format sniffer (after any blank lines and indentation a Turtle header in any letter case - @prefix, PREFIX, @base, BASE, '# baseURI:' - gives turtle, an XML declaration or rdf: root gives xml, for documents of any length; a blank document terminates with 'no format') and the extension table. "
+        "Tied to /repo by observing the real decisions (open() and Graph.parse intercepted, 5 s watchdog) on serialisations and perturbed headers. The property itself is checked differentially: each of the data, shapes and ontology arguments handed over as str, bytes, path, file: URI, open binary/text file, StringIO/BytesIO in turtle/nt/xml/json-ld, format stated or omitted where detectable, against Graph objects.",
+   note=BASE_NOTE + "Parsing/serialisation are rdflib's (forms whose rdflib round trip is not isomorphic are skipped and counted); base-URI resolution and owl:imports not modelled. Holds after fix commits 6e42126, 06ec2c6, 97947e3 in /repo.",
+   technique="Coq proof over strings (induction on leading white space for the readline loop; exhaustive ASCII case analysis) + decision correspondence + source-form differential on /repo",
+   ref="4 (C20)"),
+})
 NOT_YET = {}
 ALL = ["C%02d" % i for i in range(1, 21)]
 REASONS = {}
